@@ -47,7 +47,7 @@ def install_decoder_limits():
         # (checked here rather than at the sequence header: header-only streams of any declared size are cheap)
         lw, lh = state["luma_width"], state["luma_height"]
         if lw * lh > LIMITS["max_luma_area"] or lw > LIMITS["max_dim"] or lh > LIMITS["max_dim"]:
-            raise OutOfScope("picture %dx%d" % (lw, lh))
+            raise OutOfScope("picture size")
         if state["luma_depth"] > LIMITS["max_depth_bits"] or state["color_diff_depth"] > LIMITS["max_depth_bits"]:
             raise OutOfScope("depth")
         if state["dwt_depth"] + state["dwt_depth_ho"] > LIMITS["max_dwt_total"]:
